@@ -150,7 +150,7 @@ EditsNew == {[kind |-> "oobnew", res |-> r, field |-> "", value |-> own] :
 EditsSomeNew == EditsSome \cup EditsNew
 GuardTrue(m) == TRUE
 \* simulation bias: on an empty ledger start with an install (other operations just fail at once)
-GuardBias(m) == (Used = {}) => (m.kind = "install" \/ (m.kind # "install" /\ m = U(m.kind, m.chart)))
+GuardBias(m) == (Used = {}) => (m.kind = "install" \/ (m.kind = "upgrade" /\ m.install) \/ (m.kind # "install" /\ m = U(m.kind, m.chart)))
 \* long histories: an uninstall only once revision numbers with two digits exist (drivers list records by NAME)
 GuardLong(m) == GuardBias(m) /\ (m.kind = "uninstall" => \E r \in Used : r >= 10)
 \* real operations until one of them has died half-way (a revision left pending), dry runs from then on
